@@ -255,7 +255,11 @@ func VerifC04() {
 		}
 	}
 	if hasFocus && !p2 && focus == 7 && g1.sw.count() > 0 {
-		conf, verdict = false, true // flag and non-empty list together are never conformant
+		if _, lv := c04leafConf(p2, fkey, fit); lv {
+			conf, verdict = false, true // flag and non-empty list together are never conformant
+		} else {
+			verdict = false // null / tag / a flag other than 1 next to a list: an open encoding
+		}
 	}
 	if verdict {
 		ndAssert("c04-accepted-iff-conformant", accepted == conf)
@@ -270,7 +274,12 @@ func VerifC04() {
 		}
 		ndAssert("c04-accepted-values-equal-the-wire", obsSame(obsOf(dec), obsOf(ref), -1))
 	}
-	ndCover("c04-accepted", accepted)
+	if !(p2 && focus == 6) {
+		// (profile 2 with the component-list key in focus: the arbitrary item is never a
+		// conformant list and the list is mandatory, so nothing is accepted there)
+		// (a witness without a tagged item: what the library does with tags 0..3 is outside the model)
+		ndCover("c04-accepted", accepted && (fit == nil || fit.kind != ikTag))
+	}
 	ndCover("c04-rejected-nonconformant", !accepted && verdict && !conf)
 }
 
